@@ -6,6 +6,9 @@ func dispatchExtra(cmd, in, out, stats string) bool {
 	case "conc":
 		dispatchConc(in, out, stats)
 		return true
+	case "life":
+		dispatchLife(in, out, stats)
+		return true
 	}
 	return false
 }
